@@ -169,7 +169,7 @@ fn check_cmd(args: &[String]) -> i32 {
           "a panic or error inside step() ends that replica's part of the run (C19 does not promise its absence)".into(),
           "'contains no assignment' is decided conservatively on the text: any '=' outside := == != <= >= => ..= counts as an assignment".into(),
         ],
-        expected_reach: vec!["reach:step-ok".into(), "reach:programs-without-assignment".into(), "reach:programs-with-assignment".into(), "reach:runs-where-steps-changed-state".into(), "fault:step-split".into(), "fault:profile-knob".into(), "fault:trace-knob".into(), "fault:low-transition-budget-knob".into(), "fault:single-element-step".into(), "fault:step-id-beyond-the-plan".into()],
+        expected_reach: vec!["reach:step-ok".into(), "reach:programs-without-assignment".into(), "reach:programs-with-assignment".into(), "reach:runs-where-steps-changed-state".into(), "fault:step-split".into(), "fault:profile-knob".into(), "fault:trace-knob".into(), "fault:low-transition-budget-knob".into(), "fault:single-element-step".into(), "fault:fed-line-by-line".into(), "fault:step-id-beyond-the-plan".into()],
         exhaustive: false,
         extra: json!({"corpus_programs": corpus_len}),
       }
